@@ -1,13 +1,20 @@
 (* C13 -- Referential integrity of orders, shards, data models and schedules.
 
-   The links a Store creates are consistent (theorem below) and the end-blocker / expiry
-   rotation keep the order <-> shard links (C11's expired_shard_post). The four relations of
-   the statement -- every listed shard exists, every shard is listed by the order it names,
-   every completed shard is scheduled, every model has exactly one alias entry -- are
-   evaluated as monitors on the implementation's state after EVERY step of every history
-   (Model/Monitors.v: ref.order_shards_exist, ref.shard_has_order, ref.completed_scheduled,
-   ref.model_alias); they are not proved as global invariants of the model. *)
-From SaoVerif Require Import Base.Prelude Base.Ints Base.Dec Model.Did Model.Types Model.Monad Model.Bank Model.Select Model.Node Model.Storage Model.Sao Model.Hooks Model.App Model.Spec Proofs.Schedule.
+   Invariants (Model/Inv.v): Inv_alias (one alias per model, one model per alias), Inv_order_shards
+   (every listed shard exists, each once), Inv_shard_order (every shard is listed by the order it
+   names), Inv_completed_scheduled (every completed shard is scheduled at the end of its paid
+   period); Inv_ref is their conjunction.
+   Proved (Proofs/RefInt.v): Inv_alias is preserved by EVERY operation and every run, with no
+   hypothesis. The three order/shard clauses are preserved by the 13 operations that write none of
+   orders/shards/schedules and by Renew (step_ref_partial for "covered" operations, lifted to runs by
+   run_ref_partial together with Inv_ids). For Store, Ready, Complete, Cancel, Terminate, Migrate and
+   EndBlock the order/shard clauses are NOT proved: they are evaluated as monitors on the
+   implementation's state after every step of every history (the ref. clauses), and mon_ref_sound shows that a
+   passing monitor implies the invariant for that state. The general statement is false of the
+   faithful model (step_ref_refuted, d23_latent: finding D23 -- a renewal placed during a migration
+   is latent at the Renew and breaks the references at the next completion). The links a Store
+   creates are consistent (store_links). *)
+From SaoVerif Require Import Base.Prelude Base.Ints Base.Dec Model.Did Model.Types Model.Monad Model.Bank Model.Select Model.Node Model.Storage Model.Sao Model.Hooks Model.App Model.Spec Proofs.Schedule Model.Inv Model.Monitors Proofs.Frame Proofs.RefInt.
 From RecordUpdate Require Import RecordUpdate.
 Import RecordSetNotations.
 
@@ -17,5 +24,75 @@ Theorem C13_store_links : forall cx s m s' d, step cx s (OStore m) = (s', OutTx 
     (forall id, In id (o_shards o) -> exists sh, shards s' !! id = Some sh /\ sh_order sh = oid /\ sh_status sh = ShardWaiting /\ shards s !! id = None) /\
     NoDup (o_shards o) /\
     exists em, metas s' !! st_data m = Some em /\ m_order em = oid.
-Proof. exact store_links. Qed.
+Proof. first [exact store_links | apply store_links]. Qed.
 Print Assumptions C13_store_links.
+
+(* one alias per model and one model per alias -- preserved by EVERY operation *)
+Theorem C13_step_alias : forall cx s op, Inv_alias s -> Inv_alias (fst (step cx s op)).
+Proof. first [exact step_alias | apply step_alias]. Qed.
+Print Assumptions C13_step_alias.
+
+Theorem C13_run_alias : forall tr s, Inv_alias s -> Inv_alias (run tr s).
+Proof. first [exact run_alias | apply run_alias]. Qed.
+Print Assumptions C13_run_alias.
+
+Theorem C13_step_osc_frame : forall cx s op, frame_op op = true -> Inv_osc s -> Inv_osc (fst (step cx s op)).
+Proof. first [exact step_osc_frame | apply step_osc_frame]. Qed.
+Print Assumptions C13_step_osc_frame.
+
+(* a renewal keeps the order-shard clauses even when it copies a shard under migration (D23 strikes at the next completion) *)
+Theorem C13_step_osc_renew : forall cx s m,
+  Inv_osc s -> Inv_ids s -> counts_small s -> Z.of_nat (length (rn_data m)) < two31 ->
+  Inv_osc (fst (step cx s (ORenew m))).
+Proof. first [exact step_osc_renew | apply step_osc_renew]. Qed.
+Print Assumptions C13_step_osc_renew.
+
+(* the four clauses together for the covered operations *)
+Theorem C13_step_ref_partial : forall cx s op,
+  covered op = true -> Inv_ref s -> Inv_ids s -> ref_hyp cx s op -> Inv_ref (fst (step cx s op)).
+Proof. first [exact step_ref_partial | apply step_ref_partial]. Qed.
+Print Assumptions C13_step_ref_partial.
+
+Theorem C13_run_ref_partial : forall tr s,
+  Inv_ref s -> Inv_ids s -> ok_along tr s -> Inv_ref (run tr s) /\ Inv_ids (run tr s).
+Proof. first [exact run_ref_partial | apply run_ref_partial]. Qed.
+Print Assumptions C13_run_ref_partial.
+
+(* D23: the general statement is false *)
+Theorem C13_step_ref_refuted :
+  exists cx s op, Inv_ref s /\ Inv_ids s /\ counts_small s /\ sizes_small cx s op /\ shard_refs_ok s /\
+    ~ Inv_order_shards (fst (step cx s op)).
+Proof. first [exact step_ref_refuted | apply step_ref_refuted]. Qed.
+Print Assumptions C13_step_ref_refuted.
+
+Theorem C13_d23_latent :
+  Inv_ref W.d3 /\ Inv_ref W.d4 /\ ~ no_renewal_of_migrating W.d4 /\ ~ Inv_ref W.d5.
+Proof. first [exact d23_latent | apply d23_latent]. Qed.
+Print Assumptions C13_d23_latent.
+
+Theorem C13_no_renewal_of_migrating_benign :
+  Inv_ref W.b4 /\ ~ no_renewal_of_migrating W.b4 /\ migrating_private W.b4 /\ Inv_ref W.b5 /\ Inv_ref W.b6 /\
+  ~ migrating_private W.d4.
+Proof. first [exact no_renewal_of_migrating_benign | apply no_renewal_of_migrating_benign]. Qed.
+Print Assumptions C13_no_renewal_of_migrating_benign.
+
+Theorem C13_ref_nonvacuous :
+  Inv_ref W.s2 /\ Inv_ids W.s2 /\ counts_small W.s2 /\
+  (exists o sh m, orders W.s2 !! 1 = Some o /\ o_shards o = [1] /\ shards W.s2 !! 1 = Some sh /\
+     sh_status sh = ShardCompleted /\ expshards W.s2 !! 3606 = Some [1] /\
+     metas W.s2 !! W.data = Some m /\ models W.s2 !! meta_key m = Some W.data) /\
+  Inv_ref W.b3 /\ (exists o, orders W.b3 !! 2 = Some o /\ o_op o = 3 /\ o_shards o = [1]).
+Proof. first [exact ref_nonvacuous | apply ref_nonvacuous]. Qed.
+Print Assumptions C13_ref_nonvacuous.
+
+Theorem C13_ok_along_nonvacuous :
+  ok_along ex_run W.s2 /\ Inv_ref (run ex_run W.s2) /\
+  (exists o, orders (run ex_run W.s2) !! 2 = Some o /\ o_op o = 3) /\
+  (exists m, metas (run ex_run W.s2) !! W.data = Some m /\ m_ro m = ["did:key:K2"]).
+Proof. first [exact ok_along_nonvacuous | apply ok_along_nonvacuous]. Qed.
+Print Assumptions C13_ok_along_nonvacuous.
+
+(* the boolean monitors evaluated on implementation states imply the invariant *)
+Theorem C13_mon_ref_sound s : mon_ref s = true -> Inv_ref s.
+Proof. first [exact mon_ref_sound | apply mon_ref_sound]. Qed.
+Print Assumptions C13_mon_ref_sound.
